@@ -25,6 +25,9 @@ func schedCheck(rule string) func(c *h.Ctx) {
 		if c.ID == "C02" {
 			c02cli(c)
 		}
+		if c.ID == "C04" {
+			c04cli(c)
+		}
 		if c.ID == "C03" {
 			// cancelled runs on the real TaskRunner (child process each): caller Cancel and stage-condition error
 			var specs []cancelSpec
